@@ -6,7 +6,7 @@ CHECKS = {
     "C01": dict(
         category="exploration",
         technique="Hypothesis grammar-generated UFL forms x random kernel inputs; differential test against an independent numpy reference evaluator with propagated error bounds",
-        text="Generated-input search over cell-integral forms (arity 0-2, all cells, element pool incl. blocked/symmetric/mixed/enriched/Piola/real, affine/non-affine/manifold geometry, several quadrature rules per subdomain, four scalar types). Each compiled kernel is compared entrywise with a reference that interprets the UFL-lowered integrand with basix tabulations. Sampling, not proof: holds on everything explored.",
+        text="Generated-input search over cell-integral forms (arity 0-2, all cells, element pool incl. blocked/symmetric/mixed/enriched/Piola/real, affine/non-affine/manifold geometry, several quadrature rules per subdomain, quadrature elements, Bessel functions, user coordinate transforms, argument-dependent conditionals, two-mesh coefficients, a layer of 17 hand-written model-problem templates with generated parameters, four scalar types), preceded by a replay of the committed corpus of earlier failing inputs. Each compiled kernel is compared entrywise with a reference that interprets the UFL-lowered integrand with basix tabulations. Sampling, not proof: holds on everything explored.",
         note="Trusted: UFL compute_form_data lowering, basix tabulate/make_quadrature, gcc. Tolerance = 8 x first-order running error bound incl. table tolerances max(option, 1e-6/1e-9).",
         design="5/C01",
     ),
@@ -35,7 +35,7 @@ CHECKS["C17"] = dict(
 CHECKS["C11"] = dict(
     category="exploration",
     technique="Hypothesis-generated monomial functionals x degree x scheme x rational affine geometry; oracles: exact rational integration and the harness's own per-integral quadrature sums (basix rules)",
-    text="Generated functionals with one or several (degree, scheme) rules in a subdomain, negative controls above the rule's degree, vertex scheme, quadrature elements (default and custom points/weights; also next to integrals with their own metadata in one subdomain) and metadata-free polynomial products; the kernel value must equal the sum of each integral's own rule and the exact rational integral where the rule is exact. Degrees up to 30 and all schemes are sampled, not exhausted.",
+    text="Generated functionals with one or several (degree, scheme) rules in a subdomain, negative controls above the rule's degree, vertex scheme, quadrature elements (default and custom points/weights; also next to integrals with their own metadata in one subdomain) metadata-free polynomial products, repeated integrands, and exterior/interior-facet functionals with per-integral rules; the kernel value must equal the sum of each integral's own rule and the exact rational integral where the rule is exact. Degrees up to 30 and all schemes are sampled, not exhausted.",
     note="Trusted: basix.make_quadrature as the definition of a rule; rational arithmetic of the harness. Table tolerances set to 1e-14 for sharpness.",
     design="5/C11",
 )
@@ -63,14 +63,14 @@ CHECKS["C04"] = dict(
 CHECKS["C09"] = dict(
     category="exploration",
     technique="Hypothesis complex-aware grammar forms compiled for all four scalar types; differential against the reference evaluator per type (real and complex data) + pairwise metamorphic agreement at the narrower type's round-off",
-    text="Each generated form (cell/exterior/interior facet integrals, conj/real/imag, complex literals, math functions, sesquilinear inner products) is compiled for float32, float64, complex64, complex128. On real data all four kernels must equal the reference for their type and agree pairwise within the narrower type's propagated bound; on complex data the complex kernels must equal the reference run in complex arithmetic on UFL's complex-mode lowering. Sampling over forms and data.",
+    text="Each generated form (cell/exterior/interior facet and vertex integrals, conj/real/imag, complex literals, math functions, sesquilinear inner products; model-problem templates incl. complex-only ones); real-mode rejections of complex-only forms keep the complex kernels under test is compiled for float32, float64, complex64, complex128. On real data all four kernels must equal the reference for their type and agree pairwise within the narrower type's propagated bound; on complex data the complex kernels must equal the reference run in complex arithmetic on UFL's complex-mode lowering. Sampling over forms and data.",
     note="Trusted: UFL complex_mode lowering (sesquilinear convention), numpy complex arithmetic vs C99 complex functions on the branch-cut-free generated domain.",
     design="5/C09",
 )
 CHECKS["C12"] = dict(
     category="exploration",
     technique="Hypothesis-generated (spec, process history, PYTHONHASHSEED, language) tuples executed in fresh child interpreters; byte-equality oracle against the empty-history hash-seed-0 child",
-    text="For generated forms/expressions the text returned by compile_ufl_objects is compared byte for byte between a fresh baseline process and processes that first create unrelated UFL objects, compile other generated specs (also with other options), compile the target itself first with other options (table tolerances, scalar type, part), call get_options differently, build the target before or after that history, and run under other hash seeds; C and numba back ends. Histories and seeds are sampled.",
+    text="For generated forms/expressions the text returned by compile_ufl_objects is compared byte for byte between a fresh baseline process and processes that first create unrelated UFL objects, compile other generated specs (also with other options), compile the target itself first with other options (table tolerances, scalar type, part), compile the very same UFL objects (or objects sharing its spaces/coefficients) before the target, call get_options differently, build the target before or after that history, and run under other hash seeds; C and numba back ends. A recorded finding (two-mesh forms: the text depends on how many digits the global mesh counters have) is probed and reported as KNOWN-FINDING. Histories and seeds are sampled.",
     note="Trusted: process isolation of the child interpreters. Hash seeds sampled from a fixed set of 9 values.",
     design="5/C12",
 )
@@ -91,7 +91,7 @@ CHECKS["C03"] = dict(
 CHECKS["C07"] = dict(
     category="exploration",
     technique="Hypothesis RuleBasedStateMachine over call histories of a generated kernel pool (bitwise history-independence, accumulation, input immutability, thread-pool batches) + clang ThreadSanitizer driver + nm scan for writable static storage",
-    text="Call histories (repeats, interleavings, pre-fills zero/random/huge/previous result, concurrent batches from a thread pool on disjoint A) are generated as one shrinkable value; equal (kernel, inputs, A_before) must give bit-identical A_after anywhere in the history and on any thread, A_after - A_before must equal the zero-start result, inputs and guard zones must be untouched; a ThreadSanitizer build runs each kernel from 4 threads on shared inputs; the compiled object must contain no writable statics besides descriptors. Thread interleavings are not enumerated.",
+    text="The pool holds generated forms, templates and forms compiled with sum_factorization / part='diagonal'. Call histories (repeats, interleavings, pre-fills zero/random/huge/previous result, concurrent batches from a thread pool on disjoint A) are generated as one shrinkable value; equal (kernel, inputs, A_before) must give bit-identical A_after anywhere in the history and on any thread, A_after - A_before must equal the zero-start result, inputs and guard zones must be untouched; a ThreadSanitizer build runs each kernel from 4 threads on shared inputs; the compiled object must contain no writable statics besides descriptors. Thread interleavings are not enumerated.",
     note="Trusted: cffi releases the GIL (checked at design time), TSan's happens-before analysis, nm symbol types.",
     design="5/C07",
 )
@@ -105,7 +105,7 @@ CHECKS["C08"] = dict(
 CHECKS["C10"] = dict(
     category="exploration",
     technique="four Hypothesis-generated metamorphic families: sum_factorization on/off over tensor-product elements, part='diagonal' (JIT) vs diagonal of the full tensor, table tolerances vs reference, inapplicable options vs bit-identical tensors",
-    text="Each family compiles one generated form twice and compares the kernels on identical inputs (and with the reference evaluator where the relation is equality within tolerance). Families: TP quadrilateral/hexahedron cell forms with several rules and coefficients; bilinear forms with identical (blocked/mixed) argument spaces on all integral types; forms under table_rtol/atol in {1e-3..1e-14}; options that do not concern the form. A recorded finding (sum_factorization raising on cells without tensor rules) is reported as KNOWN-FINDING and excluded from further search. Sampling.",
+    text="Each family compiles one generated form twice and compares the kernels on identical inputs (and with the reference evaluator where the relation is equality within tolerance). Families: TP quadrilateral/hexahedron cell forms with several rules, coefficients and non-TP sibling integrals (also after a warm-up compile of another form in the same process); bilinear forms with identical (blocked/mixed) argument spaces on all integral types; forms under table_rtol/atol in {1e-3..1e-14}; options that do not concern the form. A recorded finding (sum_factorization raising on cells without tensor rules) is reported as KNOWN-FINDING and excluded from further search. Sampling.",
     note="Trusted: reference evaluator (C01), jit.compile_forms' own block extraction for the diagonal part.",
     design="5/C10",
 )
@@ -119,7 +119,7 @@ CHECKS["C18"] = dict(
 CHECKS["C14"] = dict(
     category="exploration",
     technique="harness-owned deterministic scheduler over the children's file-system/sleep/compiler/dlopen sync points; Hypothesis-generated (thorough: enumerated) interleavings; invariants over the recorded history",
-    text="2-3 real processes run jit.compile_forms on one fresh cache directory; every primitive touching the cache blocks until the controller grants it, so the interleaving is chosen by a generated cyclic schedule (the thorough tier also enumerates all two-process interleavings by prefix flipping). The history must show exactly one compiler spawn, no load before link + ready marker, no exception, correct kernels everywhere, and a late request that reuses the cache. Half of the three-process cases contain an impatient request whose timeout (1-3 polls) expires while the builder holds the lock: it may raise TimeoutError, everything else must still hold. Interleavings are at sync-point granularity.",
+    text="2-3 real processes run jit.compile_forms on one fresh cache directory; every primitive touching the cache blocks until the controller grants it, so the interleaving is chosen by a generated cyclic schedule (the thorough tier also enumerates all two-process interleavings by prefix flipping). The history must show exactly one compiler spawn, no load before link + ready marker, no exception, correct kernels everywhere, and a late request that reuses the cache. Mixed cases request different forms/options on one cache concurrently (one build per distinct module). Half of the three-process cases contain an impatient request whose timeout (1-3 polls) expires while the builder holds the lock: it may raise TimeoutError, everything else must still hold. Interleavings are at sync-point granularity.",
     note="Trusted: the wrappers see every cache access FFCx/cffi make (observed list in DESIGN.md 3.8); steps inside gcc/ld/the loader are atomic for the model.",
     design="5/C14",
 )
@@ -133,7 +133,7 @@ CHECKS["C15"] = dict(
 CHECKS["C19"] = dict(
     category="exploration",
     technique="outcome classification (built / rejected before the compiler / compiler error) of Hypothesis-generated supported and deliberately unsupported inputs, differential check of built kernels, and exhaustive enumeration of quadrature-rule id collisions",
-    text="Generated supported forms/expressions and 'wild' inputs (cell_avg, Bessel functions, raw geometry, prism dS, DG vertex integrals, non-TP sum factorisation, ridge integrals, ...) are classified; a C compiler error or a built kernel that disagrees with the reference is a violation, a Python exception is an allowed rejection. All quadrature rules (6 cells x degree 0-30 x 3 schemes x 2 polysets + vertex) are enumerated and every pair sharing FFCx's rule id is compiled as a two-rule form (exhaustive over rule pairs); one pair of distinct rules per (cell, number of points) class is compiled into one kernel; one integral with two quadrature elements must be rejected unless their rules agree; a quarter of the inputs is compiled for complex128; a fixed strict-C17 probe reports the recorded Bessel finding.",
+    text="Generated supported forms/expressions and 'wild' inputs (cell_avg, Bessel functions, raw geometry, prism dS, DG vertex integrals, non-TP sum factorisation, ridge integrals, ...) are classified; a C compiler error or a built kernel that disagrees with the reference is a violation, a Python exception is an allowed rejection. All quadrature rules (6 cells x degree 0-30 x 3 schemes x 2 polysets + vertex) are enumerated and every pair sharing FFCx's rule id is compiled as a two-rule form (exhaustive over rule pairs); one pair of distinct rules per (cell, number of points) class is compiled into one kernel; one integral with two quadrature elements must be rejected unless their rules agree; two-mesh multi-rule cell forms are part of the supported inputs; a quarter of the inputs is compiled for complex128; a fixed strict-C17 probe reports the recorded Bessel finding.",
     note="Trusted: gcc as the C17 compiler; 'supported' is never inferred - only compiler errors and silent miscomputation count.",
     design="5/C19",
 )
